@@ -277,7 +277,7 @@ func checkC19(tier, replay string) int {
 	ctx.Cov["rule"] = "every GOOS/GOARCH pair of `go tool dist list` is built (thorough: additionally vetted, informational) with an overlay-added file per package that asserts, for every constant declared in the files selected for that target, equality with the vendored Linux UAPI value (two array-index expressions that only compile if equal; ENOSYS is 89 on linux/mips*, 38 elsewhere); file selection (loader vs stub) from go list; the stub file is parsed: no imports, no call expressions, Supported returns the literal false; GetInfo(goarch) for every GOARCH must have a table exactly for 386/amd64/arm/arm64; for every GOARCH a probe is built with an overlay that substitutes runtime.GOARCH in the library sources and run on the host: with the architecture left implicit, GetInfo(\"\") and Policy.Assemble must fail with an unsupported-architecture error on targets without tables and succeed on the four with tables; non-trivial = targets whose build with assertions succeeded"
 	ctx.Sample(map[string]any{"target": "darwin/arm64", "assertion": "var _ = [1]struct{}{}[uint64(ActionAllow)-2147418112]"})
 	ctx.Assumptions = []string{"foreign targets are compiled and constant-evaluated by the real compiler, not executed", "vendored UAPI values from this image's linux/seccomp.h, linux/prctl.h, asm-generic/errno.h"}
-	return ctx.Finish()
+	return finishOrReplay(ctx, replay)
 }
 
 func stubFacts(ctx *evid.Ctx, path string) {
